@@ -26,14 +26,14 @@ func init() {
 			"non-trivial = policy with a connective/quantifier/negation or a non-equality leaf; distinct = (policy, data).",
 		Assumptions: []string{
 			"reference evaluator ref.Eval (120 lines); both the constructor-built and the IPLD-decoded form of each policy are matched",
-			"not judged: empty or, NaN/Inf operands of ordering statements and NaN under ==, quantifiers whose selector yields a map or scalar, == between maps that list the same keys in different orders, integers above 2^63-1; (c) is applied to statements not nested under not, and to Match only",
+			"not judged: empty or, NaN/Inf operands of ordering statements and NaN under ==, quantifiers whose selector yields a map or scalar, integers above 2^63-1; (c) is applied to statements not nested under not, and to Match only",
 		},
 		Shards:      shards(8, 16),
 		Run:         runC11,
 		MinEvals:    floor(150000, 4000000),
 		MinDistinct: floor(20000, 500000),
 		RequiredCells: func(string) []string {
-			cells := []string{"a/true", "a/false", "b/and", "b/or", "b/all", "b/any", "c/and", "c/all", "d", "e", "f/missing-required", "f/missing-optional", "data/nan-inf", "data/empty-collections", "via/constructors", "via/ipld"}
+			cells := []string{"a/true", "a/false", "a/map-literal-reordered", "b/and", "b/or", "b/all", "b/any", "c/and", "c/all", "d", "e", "f/missing-required", "f/missing-optional", "data/nan-inf", "data/empty-collections", "via/constructors", "via/ipld"}
 			for _, k := range ref.AllKinds {
 				cells = append(cells, "a/kind/"+k)
 			}
@@ -352,6 +352,9 @@ func runC11(w *mon.W) {
 			w.Count("a/skipped-unresolved-or-open", 1)
 			continue
 		}
+		if reorderedMapLiteral(p, d) {
+			w.Cover("a/map-literal-reordered")
+		}
 		bp, ok := c11Build(w, p)
 		if !ok {
 			continue
@@ -626,4 +629,33 @@ func innermostDisagreeing(w *mon.W, s ref.Stmt, d ref.V, via int) string {
 		}
 	}
 	return k
+}
+
+// reorderedMapLiteral tells whether some == literal is a map equal to the selected data
+// but listing its entries in a different order (the case an order-sensitive comparison gets
+// wrong).
+func reorderedMapLiteral(p ref.Policy, d ref.V) bool {
+	var walk func(s ref.Stmt, d ref.V) bool
+	walk = func(s ref.Stmt, d ref.V) bool {
+		if s.Kind == "==" && s.Val.K == ref.KMap && len(s.Val.M) >= 2 {
+			if o, v := ref.Select(s.Sel, d); o == ref.OValue && ref.Equal(v, s.Val) && !ref.SameKeyOrder(v, s.Val) {
+				return true
+			}
+		}
+		if s.Kind == "all" || s.Kind == "any" {
+			return false
+		}
+		for _, c := range s.Subs {
+			if walk(c, d) {
+				return true
+			}
+		}
+		return false
+	}
+	for _, s := range p {
+		if walk(s, d) {
+			return true
+		}
+	}
+	return false
 }
